@@ -5,7 +5,7 @@
                native __int128 vs the Z spec computed here
    (K-outer A) exact-integer arithmetic through the Scheme API on the customll build vs the default build vs Z
    (K-inner B / K-outer B) see _simplify_part."""
-import os, subprocess
+import os, shutil, signal, subprocess, time
 from vlib import build as B, scm
 
 HERE = os.path.dirname(os.path.abspath(__file__))
@@ -196,8 +196,13 @@ def _luint_part(ctx, d_custom, exe, sigs):
     rng = ctx.rng
     fns = list(sigs)
     n = (400 if not ctx.thorough else 20000)
-    emb = B.cc_embed(d_custom, os.path.join(HERE, "..", "harness", "embed_c09.c"), os.path.join(d_custom, "embed_c09"),
-                     extra=["-DSEXP_USE_CUSTOM_LONG_LONGS=1"])
+    emb = os.path.join(d_custom, "embed_c09")
+    cmd = ["cc", "-O1", "-g", "-D%s=1" % B.GUARD, "-DSEXP_USE_CUSTOM_LONG_LONGS=1", "-I" + os.path.join(d_custom, "include"), "-o", emb,
+           os.path.join(HERE, "..", "harness", "embed_c09.c")]     # static inline helpers only: no libchibi-scheme needed
+    rc = subprocess.run(cmd, capture_output=True, text=True)
+    if rc.returncode != 0:
+        ctx.broken("inner-correspondence:C09:luint", "harness compile failed: %s\n%s" % (" ".join(cmd), rc.stderr[-1500:]))
+        return
     reqs, exps, nts = [], [], []
     for fn in fns:
         for q, e, nt in lattice_cases(fn) + [helper_case(rng, fn) for _ in range(n)]:
@@ -328,6 +333,51 @@ def _arith_outer(ctx, d_default, d_custom):
     ctx.sample(dict(kind="outer-arith", expr=exprs[0], default=od[0], customll=oc[0]))
 
 
+def _build(variant, timeout=240):
+    """vlib.build.build with a time limit: a variant whose own Scheme tools loop (broken arithmetic helpers, broken
+    optimiser) must not hang the check.  Same directory naming, lock and stamp as vlib/build.py."""
+    h = B.source_hash()
+    d = os.path.join(B.SCRATCH, "%s-%s" % (variant, h))
+    with B.Lock("build-" + variant):
+        if os.path.exists(os.path.join(d, ".built-ok")):
+            return d
+        B._clean_stale(h)
+        if os.path.isdir(d):
+            shutil.rmtree(d)
+        os.makedirs(d)
+        for f in B._source_files():
+            dst, src = os.path.join(d, f), os.path.join(B.REPO, f)
+            os.makedirs(os.path.dirname(dst), exist_ok=True)
+            if os.path.islink(src):
+                os.symlink(os.readlink(src), dst)
+            else:
+                shutil.copy2(src, dst)
+        cmd = ["make", "-j8", "all"] + ["%s=%s" % kv for kv in B.VARIANTS[variant].items()]
+        env = dict(os.environ)
+        env.pop("MAKEFLAGS", None)
+        t0 = time.time()
+        p = subprocess.Popen(cmd, cwd=d, stdout=subprocess.PIPE, stderr=subprocess.STDOUT, text=True, env=env, start_new_session=True)
+        try:
+            out, _ = p.communicate(timeout=timeout)
+            timed_out = False
+        except subprocess.TimeoutExpired:
+            try:
+                os.killpg(p.pid, signal.SIGKILL)
+            except OSError:
+                pass
+            out, _ = p.communicate()
+            timed_out = True
+        with open(os.path.join(d, ".build.log"), "w") as fh:
+            fh.write(" ".join(cmd) + "\n" + (out or ""))
+        if timed_out:
+            raise B.BuildError("build of variant %s did not finish within %d s (a Scheme tool run by make does not terminate); last output:\n%s" % (variant, timeout, (out or "")[-1500:]))
+        if p.returncode != 0 or not os.path.exists(os.path.join(d, "chibi-scheme")):
+            raise B.BuildError("build of variant %s failed (see %s/.build.log):\n%s" % (variant, d, (out or "")[-3000:]))
+        with open(os.path.join(d, ".built-ok"), "w") as fh:
+            fh.write("%.1f\n" % (time.time() - t0))
+        return d
+
+
 def _builds(ctx):
     """build the four variants; a variant that does not build while its reference variant does is itself a violation of
     the property (the build runs chibi's own Scheme tools: init-7.scm, meta-7.scm, chibi-ffi are the failing program)"""
@@ -336,7 +386,7 @@ def _builds(ctx):
     dirs, errs = {}, {}
     for k, v in names.items():
         try:
-            dirs[k] = B.build(v)
+            dirs[k] = _build(v)
         except B.BuildError as e:
             errs[k] = str(e)
             ctx.checker_cmds.append("build of variant %s failed" % v)
@@ -383,8 +433,7 @@ def run(ctx):
     exe = ctx.extract("C09")
     if exe is None:
         return
-    if os.path.exists(os.path.join(d_custom, "libchibi-scheme.so")):
-        _luint_part(ctx, d_custom, exe, sigs)
+    _luint_part(ctx, d_custom, exe, sigs)
     if "default" in dirs and "customll" in dirs:
         _arith_outer(ctx, dirs["default"], dirs["customll"])
     if "default" in dirs:
@@ -636,6 +685,8 @@ def _simplify_part(ctx, exe, dirs):
     n = 500 if not ctx.thorough else 20000
     g = Gen(rng)
     progs = [g.program() for _ in range(n)]
+    g3 = Gen(rng, rich=True)          # with rest parameters: outside the SPEC interpreter, inside the model of the pass
+    progs += [g3.program() for _ in range(n // 4)]
     # corpus: minimised past disagreements and hand-written boundary programs run first
     cdir = os.path.join(HERE, "..", "corpus", "C09")
     corpus = []
@@ -735,3 +786,22 @@ def _simplify_part(ctx, exe, dirs):
     ctx.sample(dict(kind="outer-variants", program=allp[len(progs)], outputs={v: outs[v].get(len(progs)) for v in outs}))
     ctx.note("programs whose meaning the SPEC interpreter defines: %d of %d" % (sum(1 for v in sem.values() if v[0].startswith("V")), len(sem)))
     ctx.note("generator distribution (let-fragment programs): %s; rich programs: %d fixed + %s" % (g.stats, len(RICH), g2.stats))
+
+
+def replay(ctx, data):
+    """./check C09 --replay evidence/replay/C09-<n>.json : re-run the recorded shell commands of the failing cases"""
+    rc = 0
+    for c in data.get("failing_cases", []):
+        cmd = c.get("replay")
+        print("input   :", c.get("input"))
+        print("expected:", c.get("expected"))
+        print("observed:", c.get("observed", c.get("observed_customll")))
+        if cmd:
+            print("$", cmd)
+            r = subprocess.run(cmd, shell=True, capture_output=True, text=True, timeout=600)
+            print(r.stdout[-2000:] + r.stderr[-500:])
+        rc = 1
+    for u in data.get("no_longer_checks", []):
+        print("no longer checks:", u.get("name"), "-", str(u.get("reason"))[:500])
+        rc = 1
+    return rc
